@@ -25,8 +25,11 @@ PROPS = {}
 OBLIGATIONS = {}
 REPLAYERS = {}
 
-def obl(oid, fn, text, kind='proved', tier='quick', never=False, absent_ok=None):
-    OBLIGATIONS[oid] = {'prop': oid.split('.')[0], 'fn': fn, 'text': text, 'kind': kind, 'tier': tier, 'never': never, 'absent_ok': absent_ok}
+def obl(oid, fn, text, kind='proved', tier='quick', never=False, absent_ok=None, also=()):
+    OBLIGATIONS[oid] = {'prop': oid.split('.')[0], 'fn': fn, 'text': text, 'kind': kind, 'tier': tier, 'never': never, 'absent_ok': absent_ok, 'also': list(also)}
+
+def belongs(oid, pid):
+    return oid.startswith(pid + '.') or pid in OBLIGATIONS.get(oid, {}).get('also', [])
 
 # --------------------------------------------------------------------------------------------
 UNITS['flag'] = dict(
@@ -68,6 +71,7 @@ PROPS['C17'] = dict(
     technique='function contracts on the real C file (CBMC) and on the real Rust extractor linked with that C file (Kani), full input domain',
     explanation='CBMC proves the C classifier against the documented si_code table for every (si_code, si_signo); Kani proves Origin::extract, compiled together with the real extract.c, reports signal, cause and process exactly as the kernel-documented meaning, for all inputs.')
 import replay as _R
+REPLAYERS['C11.PENDING-ONLY-IF-ARMED'] = _R.replay_c11_armed
 for _o in ('C17.RS-SIGNAL', 'C17.RS-TABLE', 'C17.RS-PROCESS-IFF', 'C17.RS-PID'):
     REPLAYERS[_o] = _R.replay_c17_rs
 REPLAYERS['C16.KIND'] = _R.replay_c16_kind
@@ -129,12 +133,16 @@ PROPS['C13'] = dict(
 
 # --------------------------------------------------------------------------------------------
 _CH_STUB = dict(panic_map=[(r'option::expect_failed', 'C08.NO-PANIC-EXPECT')])
+UNITS['channel_priv'] = dict(
+    name='channel_priv', engine='kani', crate='.', inject=[('src/low_level/channel.rs', K + 'channel.rs'), ('src/low_level/channel.rs', K + 'channel_priv.rs', 'verif_kani_priv')], flags=['-Z', 'stubbing'],
+    harnesses={
+        'c06_bits': dict(props=['C06']),
+        'c06_seq_dequeue': dict(props=['C06'], **_CH_STUB),
+        'c06_seq_enqueue': dict(props=['C06'], **_CH_STUB),
+    })
 UNITS['channel'] = dict(
     name='channel', engine='kani', crate='.', inject=[('src/low_level/channel.rs', K + 'channel.rs')], flags=['-Z', 'stubbing'],
     harnesses={
-        'c06_bits': dict(props=['C06']),
-        'c06_seq_dequeue': dict(props=['C06'], auto_obl='C08.NO-PANIC', unwind_obl='C08.FROZEN', **_CH_STUB),
-        'c06_seq_enqueue': dict(props=['C06'], **_CH_STUB),
         'c06_new': dict(props=['C06'], **_CH_STUB),
         'c06_seq_send': dict(props=['C06', 'C07', 'C08'], auto_obl='C08.NO-PANIC', unwind_obl='C08.FROZEN', **_CH_STUB),
         'c06_seq_recv': dict(props=['C06', 'C07', 'C08'], auto_obl='C08.NO-PANIC', unwind_obl='C08.FROZEN', **_CH_STUB),
@@ -156,13 +164,13 @@ obl('C06.SEND', FQ + 'Channel::send', 'from every invariant state (frozen env): 
 obl('C06.RECV', FQ + 'Channel::recv', 'from every invariant state (frozen env): oldest value returned, order of the rest kept, slot freed, None iff nothing queued')
 obl('C06.FULL-ONLY-WHEN-5', FQ + 'Channel::send', 'a send is discarded only if it observed the free queue empty (5 indices queued or in flight)')
 obl('C06.EMPTY-ONLY-WHEN-EMPTY', FQ + 'Channel::recv', 'None only if it observed the full queue empty')
-obl('C06.ATOMIC', FQ + 'enqueue, dequeue, send, recv', 'under arbitrary interference: every effect on a queue word is one successful CAS that is a pop-front/push-back of the expected value; a call has exactly the pops/pushes of its specification', never=False)
-obl('C06.OWN', FQ + 'enqueue', 'only an index this operation owns is enqueued')
-obl('C06.G-INV', FQ + 'send, recv', 'every step of the code preserves the channel invariant (well-formed words, disjoint index sets, full => cell Some)')
+obl('C06.ATOMIC', FQ + 'enqueue, dequeue, send, recv', 'under arbitrary interference: every effect on a queue word is one successful CAS that is a pop-front/push-back of the expected value; a call has exactly the pops/pushes of its specification', also=['C07', 'C08'])
+obl('C06.OWN', FQ + 'enqueue', 'only an index this operation owns is enqueued', also=['C07', 'C08'])
+obl('C06.G-INV', FQ + 'send, recv', 'every step of the code preserves the channel invariant (well-formed words, disjoint index sets, full => cell Some)', also=['C07', 'C08'])
 obl('C06.NO-STORE', FQ + 'all', 'no plain store/swap on a queue word', never=True, absent_ok=r'Atomic :: < u16 > :: store -> u16_store')
-obl('C07.G-ACQ', FQ + 'dequeue', 'taking CAS has success ordering >= Acquire')
-obl('C07.G-REL', FQ + 'enqueue', 'publishing CAS has success ordering >= Release')
-obl('C07.EMPTY-MEANS-NONE', FQ + 'recv', 'an index goes back to `empty` only with its cell None')
+obl('C07.G-ACQ', FQ + 'dequeue', 'taking CAS has success ordering >= Acquire', also=['C06'])
+obl('C07.G-REL', FQ + 'enqueue', 'publishing CAS has success ordering >= Release', also=['C06'])
+obl('C07.EMPTY-MEANS-NONE', FQ + 'recv', 'an index goes back to `empty` only with its cell None (otherwise the next send overwrites an untaken value)', also=['C06'])
 obl('C07.OWN-CELL', FQ + 'send, recv', 'cells are accessed only while their index is owned; exactly one cell access per effective call')
 obl('C07.DROP-ONCE', FQ + 'send', 'a discarded value is dropped exactly once')
 obl('C07.NO-EARLY-DROP', FQ + 'send, recv', 'successful send / recv drop nothing')
@@ -176,7 +184,7 @@ obl('C08.NO-PANIC-EXPECT', FQ + 'enqueue, recv', 'neither expect("No empty slot 
 obl('C08.NO-LEAK-INDEX', FQ + 'send, recv', 'on return no index is held')
 obl('C08.RETRY-ONLY-ON-CAS-FAIL', FQ + 'send, recv', 'atomic ops = 1 load + (fails+1) CAS per queue operation: no waiting loop')
 _T = L('A1', 'A7', 'A8', 'A10')
-PROPS['C06'] = dict(level='proof', units=['channel'], trusted=_T + ['linearizability / per-producer order from C06.ATOMIC + sequential contracts is the lemma L-FIFO (argument in DESIGN.md, not machine-checked)'],
+PROPS['C06'] = dict(level='proof', units=['channel', 'channel_priv'], trusted=_T + ['linearizability / per-producer order from C06.ATOMIC + sequential contracts is the lemma L-FIFO (argument in DESIGN.md, not machine-checked)'],
     technique='function contracts + rely/guarantee environment stubs on the real channel.rs, Kani/CBMC',
     explanation='Sequential FIFO contracts of get/set/enqueue/dequeue/send/recv proved from every invariant state; under an environment that havocs the shared words to any invariant state before every access, each effect of the real code is proved to be a single CAS that is a push/pop of the expected value.')
 PROPS['C07'] = dict(level='proof', units=['channel'], trusted=_T + ['happens-before itself is the C11 axiom (A1); proved: the code meets its premises (orderings, ownership)'],
@@ -228,3 +236,72 @@ PROPS['C01'] = dict(level='proof', units=['half_lock'], trusted=L('A1', 'A2', 'A
 PROPS['C18'] = dict(level='other', units=['half_lock', 'native_half_lock'], trusted=L('A1', 'A2', 'A7', 'A8', 'A10') + ['fairness-based liveness (every fair execution terminates) is not decidable by contracts; proved are the obligations the termination argument rests on'],
     technique='progress obligations (sticky seen flags, single flip before waiting, poison tolerance, quiescent termination) as contracts on the real half_lock.rs, Kani/CBMC',
     explanation='Contracts prove the safety-shaped obligations that the termination argument needs; termination itself is proved for a quiescent environment (complete) and for <= K non-zero answers (bounded).')
+
+# --------------------------------------------------------------------------------------------
+UNITS['backend'] = dict(
+    name='backend', engine='kani', crate='.', inject=[('src/iterator/backend.rs', K + 'backend.rs')], flags=FFI,
+    scan=[K + 'libc_model.rs'], timeout={'quick': 1500, 'thorough': 3600},
+    harnesses={
+        'c09_action': dict(props=['C09', 'C10', 'C03']),
+        'c10_signal_only': dict(props=['C10']),
+        'c10_pending_next': dict(props=['C10', 'C09']),
+        'c09_pending_drain': dict(props=['C09']),
+        'c11_close': dict(props=['C11']),
+        'c11_poll_pending': dict(props=['C11', 'C09']),
+        'c12_add_signal_accepted': dict(props=['C12'], panic_map=[(r'Init called multiple times', 'C12.RETRY')]),
+        'c12_add_signal_rejected': dict(props=['C12', 'C14'], expected_panics=r'index out of bounds|assertion failed: signal >= 0|Signal number .* too large|placeholder message'),
+    })
+# control-flow harnesses on a scratch copy with the slot table shortened (mechanical rewrite, stated)
+_SMALL = "bounded(slot table shortened from 128 to 4 entries by a mechanical rewrite of `const MAX_SIGNUM` in the scratch copy; same code otherwise)"
+UNITS['backend_small'] = dict(
+    name='backend_small', engine='kani', crate='.', inject=[('src/iterator/backend.rs', K + 'backend.rs')], flags=FFI,
+    rewrite=[('src/iterator/backend.rs', r'const MAX_SIGNUM: usize = 128;', 'const MAX_SIGNUM: usize = 4;', 1)],
+    scan=[K + 'libc_model.rs'], timeout={'quick': 1500, 'thorough': 3600},
+    harnesses={
+        'c11_poll_signal_idle_f': dict(props=['C11', 'C09', 'C10'], kind='bounded', bound=_SMALL),
+        'c11_poll_signal_idle_e': dict(props=['C11', 'C09', 'C10'], kind='bounded', bound=_SMALL),
+        'c11_poll_signal_idle_tf': dict(props=['C11', 'C09', 'C10'], kind='bounded', bound=_SMALL),
+        'c11_poll_signal_marked_f': dict(props=['C11', 'C09', 'C10'], kind='bounded', bound=_SMALL),
+        'c11_poll_signal_marked_tf': dict(props=['C11', 'C09', 'C10'], kind='bounded', bound=_SMALL),
+        'c11_poll_signal_idle_ttf': dict(props=['C11', 'C09', 'C10'], tier='thorough', kind='bounded', bound=_SMALL),
+        'c11_poll_signal_marked_te': dict(props=['C11', 'C09', 'C10'], tier='thorough', kind='bounded', bound=_SMALL),
+    })
+FB = 'backend.rs: '
+obl('C09.SETUP', FB + 'PendingSignals::add_signal', 'accepted signal + registry Ok => Ok')
+obl('C09.STORE-THEN-WAKE', FB + 'action closure of PendingSignals::add_signal', 'per delivery: exactly [slot store, send(write_fd,_,1,MSG_DONTWAIT)] in this order')
+obl('C09.RIGHT-SLOT', FB + 'action closure', 'the slot written is slots[registered signal]', also=['C10'])
+obl('C09.SCAN-ALL', FB + 'Pending::next', 'no slot at or after the position is skipped; None only at the end')
+obl('C09.DRAIN-THEN-SCAN', FB + 'SignalDelivery::pending, flush', 'all recv()s precede the first slot examination; scan restarts at 0; drain stops at first recv <= 0', kind='bounded(K=2 successful recv per drain)')
+obl('C09.DRAIN-NONBLOCK', FB + 'SignalDelivery::flush', 'recv on the read end with MSG_DONTWAIT only')
+obl('C09.POLL-MAP', FB + 'SignalDelivery::poll_pending, SignalIterator::poll_signal', 'callback answers map to None / Some(batch after drain) / Err')
+obl('C10.REGISTERED-SIG', FB + 'PendingSignals::add_signal', 'registers for the requested number')
+obl('C10.ONLY-OWN-SLOT', FB + 'action closure', 'after deliveries of one signal only its own slot is marked (all 128 checked)')
+obl('C10.SET-ONLY', 'exfiltrator/mod.rs: SignalOnly::store', 'a delivery only stores true')
+obl('C10.CLEAR', 'exfiltrator/mod.rs: SignalOnly::load', 'Some(sig) iff the slot was marked; the mark is consumed atomically; at most one report per mark')
+obl('C10.INDEX-IS-SIG', FB + 'Pending::next', 'yields the first marked slot >= position as its own index')
+obl('C10.ADVANCE-ON-NONE', FB + 'Pending::next', 'position advances only past slots that reported None')
+obl('C10.POLL-REAL', FB + 'SignalIterator::poll_signal', 'Signal(s) only for a marked slot s')
+obl('C11.OPEN-INITIALLY', FB + 'Handle::is_closed', 'new instance is open')
+obl('C11.STICKY', FB + 'Handle::close', 'only true is ever stored to the closed flag, SeqCst; all handles see it')
+obl('C11.CLOSE-THEN-WAKE', FB + 'Handle::close', 'flag store precedes one non-blocking wake-up write')
+obl('C11.NO-BLOCK-AFTER-CLOSE', FB + 'SignalDelivery::poll_pending', 'callback skipped only if closed was seen; then Ok(None) at once')
+obl('C11.ONE-CALLBACK', FB + 'SignalDelivery::poll_pending', 'callback consulted at most once')
+obl('C11.PENDING-ONLY-IF-ARMED', FB + 'SignalIterator::poll_signal', 'Pending => callback consulted during this call and last answer Ok(false); close() may land between any two loads')
+obl('C11.CLOSED-ONLY-IF-CLOSED', FB + 'SignalIterator::poll_signal', 'Closed => the flag was seen true')
+obl('C12.ERR-PASSTHROUGH', FB + 'Handle::add_signal', 'Err iff registration failed')
+obl('C12.REGISTER-ONCE', FB + 'Handle::add_signal', 'one registration attempt, for the requested number')
+obl('C12.RETRY', FB + 'Handle::add_signal + exfiltrator/raw.rs: WithRawSiginfo::init', 'after Err the same add_signal again behaves like a first call (no "Init called multiple times" panic)')
+obl('C12.IDEMPOTENT', FB + 'Handle::add_signal', 're-adding a watched signal: Ok, no registration')
+obl('C12.DROP-ALL', FB + 'DeliveryState::drop', 'unregister called exactly for the ids recorded, once each')
+obl('C14.ITER-REFUSE', FB + 'Handle::add_signal', 'never returns normally for negative / >= 128 / forbidden numbers (all c_int)', never=True)
+obl('C14.ITER-NO-REGISTER', FB + 'Handle::add_signal', 'the registry is never reached with a number outside 0..128')
+_TI = L('A3', 'A4', 'A5', 'A7', 'A8', 'A10', 'A12')
+PROPS['C09'] = dict(level='other', units=['backend_small', 'backend'], trusted=_TI + ['"obtains it at least once" / "never parked with an unreported signal and no wake-up outstanding" is a liveness/whole-history statement: lemma L-PIPE over the proved ordering obligations + kernel socket semantics, not machine-checked'],
+    technique='ordering obligations (store-then-wake, drain-then-scan, scan-all) as trace contracts on the real backend.rs, Kani/CBMC',
+    explanation='Proved: the action stores then wakes; the consumer drains then scans every slot from 0; poll_signal maps callback answers faithfully. The no-lost-wakeup theorem over these is argued in DESIGN.md.')
+PROPS['C10'] = dict(level='proof', units=['backend', 'backend_small'], trusted=_TI + ['counting argument yields <= clears <= sets <= deliveries composed from the per-operation contracts (DESIGN.md C10)', 'info-carrying exfiltrators: at-most-once and order are the channel contracts C06/C07; faithful copy checked in unit backend_raw'],
+    explanation='Per-operation contracts: a delivery only sets its own slot; load clears atomically and echoes the slot index; next() yields exactly the first marked slot.')
+PROPS['C11'] = dict(level='proof', units=['backend', 'backend_small'], trusted=_TI + ['a blocked reader returns because close() writes a wake-up byte (kernel semantics)', 'callback answers true at most once per call in the harness (bounded)'],
+    explanation='closed flag havoc-ed monotonically before every load (close() on another thread at any instant); sticky flag, close-then-wake, no callback after closed, Pending only if armed.')
+PROPS['C12'] = dict(level='proof', units=['backend'], trusted=_TI,
+    explanation='add_signal over all accepted c_int with the registry answering Ok/Err nondeterministically, twice in a row; teardown unregisters exactly what was registered.')
